@@ -314,8 +314,26 @@ func gen(thorough bool) []cas {
 			add("huge-many-colons", strings.Repeat(":", 1<<20))
 		}
 	}
+	// (iii, continued) independent records for scrypt parameter sets that configure only one of
+	// r / p (the other one is the algorithm's default: r=8, p=1), all labelled with id 2
+	for _, sp := range extraScrypt {
+		salt := make([]byte, 32)
+		for i := range salt {
+			salt[i] = byte(0x11 + i*29)
+		}
+		rec := fmt.Sprintf("%s:%d:%d:%s:%s", sp.format, 1700000001, 2, base64.URLEncoding.EncodeToString(salt), base64.URLEncoding.EncodeToString(digest(sp, pw, salt)))
+		out = append(out, cas{kind: fmt.Sprintf("set2:independent-scrypt(r=%d,p=%d)", sp.r, sp.pp), content: rec + "\n", pw: pw})
+	}
 	out = append(out, cas{kind: "directory-instead-of-file", isDir: true})
 	return out
+}
+
+// what a configuration entry {cost: 1, r: 4}, {cost: 1, p: 2}, {cost: 1} and {cost: 1, r: 4, p: 2} means
+var extraScrypt = []pspec{
+	{format: "hmac_sha256_scrypt", cost: 1, r: 4, pp: 1},
+	{format: "hmac_sha256_scrypt", cost: 1, r: 8, pp: 2},
+	{format: "hmac_sha256_scrypt", cost: 1, r: 8, pp: 1},
+	{format: "hmac_sha256_scrypt", cost: 1, r: 4, pp: 2},
 }
 
 type config struct {
@@ -340,14 +358,31 @@ func configs() []config {
 			d.Params[1], d.Params[2], d.Params[3] = d.Params[2], d.Params[3], d.Params[1]
 			return d
 		}},
+		scryptCfg("scrypt-only-r", extraScrypt[0], 4, 0),
+		scryptCfg("scrypt-only-p", extraScrypt[1], 0, 2),
+		scryptCfg("scrypt-neither", extraScrypt[2], 0, 0),
+		scryptCfg("scrypt-r-and-p", extraScrypt[3], 4, 2),
 	}
+}
+
+// scryptCfg: set 2 configured with the given r / p entries (0 = not given), as the YAML loader does
+func scryptCfg(name string, means pspec, r, p int) config {
+	return config{name, map[uint]pspec{1: specs[1], 2: means, 3: specs[3]}, func(base string) *store.Dir {
+		d := verifx.CheapDir(base, 1)
+		h, err := store.NewScryptAuthHasher(&store.ScryptAuthParams{HmacKeyBase64: verifx.HmacKeyB64, Cost: 1, R: r, P: p})
+		if err != nil {
+			panic(err)
+		}
+		d.Params[2] = h
+		return d
+	}}
 }
 
 func main() {
 	ev = verifev.New("C02", "inputs")
 	cases := gen(ev.Thorough())
 	cfgs := configs()
-	ev.Rule = "every string of length <=3 over {':','\\n','1','a','='}; every listed single mutation of a valid record of each of 3 parameter sets incl. truncation at every byte length; independent-implementation records; each under 3 configurations (all sets / set absent / ids mapped to other algorithms) and both extensions; distinct = distinct (configuration, content class, observed behaviour vector)"
+	ev.Rule = "every string of length <=3 over {':','\\n','1','a','='}; every listed single mutation of a valid record of each of 3 parameter sets incl. truncation at every byte length; independent-implementation records; independent scrypt records for r/p given partially; each under 7 configurations (all sets / set absent / ids mapped to other algorithms / scrypt set with only r, only p, neither, both) and both extensions; distinct = distinct (configuration, content class, observed behaviour vector)"
 	ev.Assumptions = []string{"record validity is judged by an independent lenient decoder and an independent recomputation of the digest with x/crypto primitives", "grey-zone contents (decodable only leniently) are checked for soundness only, not for the supported/unsupported schema rules"}
 	type job struct {
 		c   cas
